@@ -203,8 +203,69 @@ func C08Scenarios() []sched.Scenario {
 	for _, c := range cs {
 		out = append(out, c.scenario())
 	}
-	out = append(out, txnCommitVsSet(), blockReadVsTxnCommit(false, false), blockReadVsTxnCommit(true, false), blockReadVsTxnCommit(false, true))
+	out = append(out, txnCommitVsSet(), blockReadVsTxnCommit(false, false), blockReadVsTxnCommit(true, false), blockReadVsTxnCommit(false, true), blockReadVsRewrite())
 	return out
+}
+
+// mval is a mutable cache value (as trie nodes are): Clone copies, CopyFrom overwrites in place.
+type mval struct{ A, B, C int }
+
+// Reading and overwriting the object are marked as accesses (Touch): the cache must never let one goroutine
+// copy an object while another overwrites it.
+func (m *mval) Clone() statecache.Value {
+	touch(m, false, "cached value object (Clone)")
+	c := *m
+	return &c
+}
+
+func (m *mval) CopyFrom(v interface{}) bool {
+	o, ok := v.(*mval)
+	if ok {
+		touch(m, true, "cached value object (CopyFrom)")
+		m.A, m.B, m.C = o.A, o.B, o.C
+	}
+	return ok
+}
+
+// blockReadVsRewrite: the open block B already holds a live entry for k (committed into it by an earlier
+// transaction); a second transaction rewrites k and commits while another goroutine reads k through the
+// block. Values are mutable objects: the read must return one of the two values whole, never a mix, and
+// what it returns must not change afterwards.
+func blockReadVsRewrite() sched.Scenario {
+	return sched.Scenario{Name: "S17-block-read-vs-rewrite-of-live-entry", Doc: "open block B holds k={1,1,1} from txn1; txn2{Set(k,{2,2,2}); Commit} || BlockCache(B).Get(k) (mutable values)",
+		Make: func() ([]func(), func() (string, string)) {
+			sc := statecache.NewStateCache()
+			for _, b := range base {
+				mkBlock(sc, b).Commit()
+			}
+			bc := statecache.NewBlockCache(sc, statecache.Block{Hash: "B", PrevHash: "A"})
+			tc1 := statecache.NewTransactionCache(bc)
+			tc1.Set("k", &mval{1, 1, 1})
+			tc1.Commit()
+			tc2 := statecache.NewTransactionCache(bc)
+			var got statecache.Value
+			var ok bool
+			bodies := []func(){
+				func() { tc2.Set("k", &mval{2, 2, 2}); tc2.Commit() },
+				func() { got, ok = bc.Get("k") },
+			}
+			judge := func() (string, string) {
+				fail := ""
+				seen := show(got, ok)
+				if seen != "&{1 1 1}" && seen != "&{2 2 2}" {
+					fail = "the concurrent read returned " + seen + "; the block held {1 1 1} and the committing transaction wrote {2 2 2}"
+				}
+				after := show(bc.Get("k"))
+				if after != "&{2 2 2}" && fail == "" {
+					fail = "after the second transaction's commit returned, BlockCache(B).Get(k) = " + after
+				}
+				if again := show(got, ok); again != seen && fail == "" {
+					fail = "the value handed out by the concurrent read changed afterwards: " + seen + " -> " + again
+				}
+				return "seen=" + seen + " after=" + after, fail
+			}
+			return bodies, judge
+		}}
 }
 
 // blockReadVsTxnCommit: on one not yet committed block B (on A, ancestors hold k=1) a transaction writes
